@@ -202,6 +202,24 @@ def judge_bare(acc, text, clean, exp_pp, is_aliquot, ctx):
     if ctx in ('alone', 'prose') and bool(qqs) != is_aliquot:
         acc.violation('bare_quarter_qqs', f"C07:bare_quarter_qqs:{key}", case, got=qqs)
         return
+    if ctx in ('alone', 'prose', 'after_quarter', 'after_half'):
+        # same description, same final setting, but on an object that went through the *other* setting first
+        other = not clean
+        for label, prep in (('parse(other) then parse', lambda t: t.parse(clean_qq=other)),
+                            ('preprocess(other, commit) then parse', lambda t: t.preprocess(clean_qq=other, commit=True)),
+                            ('config(other) then parse', lambda t: setattr(t, 'config', 'clean_qq' if other else 'clean_qq.False'))):
+            try:
+                t2 = _p.Tract(text)
+                prep(t2)
+                t2.parse(clean_qq=clean)
+                got2 = [t2.pp_desc, list(t2.qqs)]
+            except Exception as ex:  # noqa
+                acc.violation('exception', f"C07:exception:{key}:{label}", case, got=f"{type(ex).__name__}: {ex}")
+                return
+            if got2 != [pp, qqs]:
+                acc.violation('bare_quarter_depends_on_history', f"C07:bare_quarter_depends_on_history:{label}:{key}", case,
+                              got=got2, exp=[pp, qqs], note=label)
+                return
     if ctx == 'after_half_chain':
         canon_qqs = list(_p.Tract(exp_pp, parse_qq=True, config=cfg).qqs)
         if qqs != canon_qqs:
